@@ -992,6 +992,17 @@ pub mod simfs {
         });
         match hit {
             Some(r) => r,
+            None if !inside_repo(p) => {
+                if virtual_dir_exists(&wk) {
+                    Ok(Metadata {
+                        is_dir: true,
+                        len: 4096,
+                        mtime_ns: world::with(|w| w.image_mtime(&wk)),
+                    })
+                } else {
+                    Err(io::Error::new(io::ErrorKind::NotFound, "No such file or directory"))
+                }
+            }
             None => {
                 // outside the image and not written by the session: the real tree answers kind and
                 // length; its modification time is environment, so a seeded checkout time stands in
@@ -1052,6 +1063,44 @@ pub mod simfs {
         } else {
             world::with(|w| w.image.crate_dir.join(p))
         }
+    }
+
+    /// Only the repository's working tree is ever consulted for real (read-only: sources, manifests,
+    /// the checked-in tables). Everything else a program may name — the temp directory, the home
+    /// directory, `/proc` — is part of the simulated machine: it holds what the session's runs put
+    /// there and nothing else, so that no run can see what happens to be on the real disk.
+    fn inside_repo(p: &Path) -> bool {
+        let abs = real_path(p);
+        let mut parts: Vec<std::ffi::OsString> = vec![];
+        for c in abs.components() {
+            match c {
+                std::path::Component::ParentDir => {
+                    parts.pop();
+                }
+                std::path::Component::Normal(s) => parts.push(s.to_os_string()),
+                _ => {}
+            }
+        }
+        let root = world::with(|w| w.image.crate_dir.parent().map(|r| r.to_path_buf()).unwrap_or_default());
+        let root_parts: Vec<std::ffi::OsString> = root
+            .components()
+            .filter_map(|c| match c {
+                std::path::Component::Normal(s) => Some(s.to_os_string()),
+                _ => None,
+            })
+            .collect();
+        parts.len() >= root_parts.len() && parts[..root_parts.len()] == root_parts[..]
+    }
+
+    /// a directory of the simulated machine outside the repository: it exists if it is the temp
+    /// directory (or above it) or if the session wrote something below it
+    fn virtual_dir_exists(key: &str) -> bool {
+        let key = key.trim_end_matches('/');
+        if key.is_empty() || "/tmp".starts_with(key) {
+            return true;
+        }
+        let prefix = format!("{}/", key);
+        world::with(|w| w.written.keys().any(|k| k.starts_with(&prefix)))
     }
 
     pub struct ReadDir {
@@ -1118,6 +1167,15 @@ pub mod simfs {
                         });
                     }
                 }
+            }
+            None if !inside_repo(p) => {
+                let wk = write_key_of(p);
+                if !virtual_dir_exists(&wk) {
+                    return Err(io::Error::new(io::ErrorKind::NotFound, "No such file or directory"));
+                }
+                let mut c = vec![];
+                overlay_children(wk.trim_end_matches('/'), &mut c);
+                (format!("<virtual>{}", p.display()), c)
             }
             None => {
                 // outside the image: list the real directory, sorted, then let the simulator order it
@@ -1207,6 +1265,7 @@ pub mod simfs {
                     }
                 }
             }
+            None if !inside_repo(p) => Err(io::Error::new(io::ErrorKind::NotFound, "No such file or directory")),
             None => {
                 world::with(|w| w.stats.fs_escapes += 1);
                 let d = std::fs::read(real_path(p))?;
@@ -1343,6 +1402,7 @@ pub mod simfs {
         });
         match in_world {
             Some(b) => b,
+            None if !inside_repo(p) => virtual_dir_exists(key),
             None => {
                 world::with(|w| w.stats.fs_escapes += 1);
                 real_path(p).exists()
